@@ -357,7 +357,8 @@ func (c *channel) reconnect(maxRetries float64) {
 		c.streamMut.Unlock()
 		c.setLastErr(err)
 		if retries >= maxRetries && maxRetries > 0 {
-			c.streamBroken.set()
+			// streamBroken is still set, unless another goroutine has re-established
+			// the stream since we released the lock; don't mark that stream as broken.
 			return
 		}
 		delay := float64(backoffCfg.BaseDelay)
